@@ -156,6 +156,18 @@ GROUPS = {
         nontrivial='schedules in which the running thread changes at least once',
         functions=['HomeRelayWatch::{default, set, clear, set_status, get}', 'RelayStatus::{new, url, is_connected}', 'RelayConnectionState::{eq, is_connected}'],
     ),
+    # C06: the relay's connection registry, sequential histories against a reference registry + linearizability of 2-thread scenarios
+    'relay_registry_bx': dict(
+        unit='relay_registry.rs', props=['C06'],
+        bounds=dict(quick=['5', '1'], thorough=['6', '1']),
+        space='(a) every sequential history of at most {0} operations from 16 — connect of connection 1/2/3 of endpoint 1 and of one connection each of peers 8 and 9, '
+              'their closes, packets 1->8, 1->9, 8->1, draining a queue, disconnect requests for one connection or the whole endpoint; queues hold 2 entries — each '
+              'compared step by step with a reference registry; (b) if {1} = 1: every schedule of 8 two-thread operation pairs (connect | close, connect | send, close | '
+              'send, close | disconnect, connect;close | close, close | close of a peer, connect | disconnect) from two initial states, checked for linearizability '
+              '(a close is two steps: the connection\'s actor ends, then it unregisters)',
+        nontrivial='histories in which endpoint 1 connects at least twice; all concurrent schedules',
+        functions=['Clients::{register, unregister, disconnect, send_packet}', 'Client::{connection_id, start_shutdown, try_send_packet, try_send_peer_gone, try_send_health}'],
+    ),
     # second line behind the Verus unit builder_bind
     'builder_bind_bx': dict(
         unit='builder_bind.rs', props=['C20'],
